@@ -3,6 +3,7 @@ package ssaexec
 
 import (
 	"fmt"
+	"reflect"
 	"go/types"
 	"sort"
 
@@ -197,7 +198,8 @@ type Obj struct {
 
 type Heap struct {
 	frozen map[int]*Obj // immutable layer shared by every state (the heap after package initialisation)
-	objs   map[int]*Obj // objects created or modified since
+	objs   map[int]*Obj // objects created or modified since; possibly shared with other heaps (see shared)
+	shared bool         // objs is shared with another heap: copy before the first write
 	owner  *int
 }
 
@@ -216,20 +218,32 @@ func (h *Heap) Freeze() {
 	}
 	h.frozen = f
 	h.objs = map[int]*Obj{}
+	h.shared = false
 	h.owner = new(int)
 }
 
+// Fork is O(1): both heaps keep the same delta map until one of them writes.
 func (h *Heap) Fork() *Heap {
-	n := &Heap{frozen: h.frozen, objs: make(map[int]*Obj, len(h.objs)+8), owner: new(int)}
-	for k, v := range h.objs {
-		n.objs[k] = v
-	}
+	h.shared = true
 	// the parent must not mutate shared objects in place either
 	h.owner = new(int)
-	return n
+	return &Heap{frozen: h.frozen, objs: h.objs, shared: true, owner: new(int)}
+}
+
+func (h *Heap) own() {
+	if !h.shared {
+		return
+	}
+	n := make(map[int]*Obj, len(h.objs)+8)
+	for k, v := range h.objs {
+		n[k] = v
+	}
+	h.objs = n
+	h.shared = false
 }
 
 func (h *Heap) Alloc(v Value) int {
+	h.own()
 	id := nextObj
 	nextObj++
 	h.objs[id] = &Obj{V: v, owner: h.owner}
@@ -262,6 +276,7 @@ func (h *Heap) Set(id int, v Value) {
 		o.V = v
 		return
 	}
+	h.own()
 	h.objs[id] = &Obj{V: v, owner: h.owner}
 }
 
@@ -585,6 +600,9 @@ func (m *merger) renameVal(v Value) Value {
 // (so rho is seeded); it iterates until the renaming closes.
 func (m *merger) heaps() (*Heap, bool) {
 	out := m.ha.Fork()
+	if sameMap(m.ha.objs, m.hb.objs) && len(m.todo) == 0 {
+		return out, true
+	}
 	// objects present on both sides under the same id
 	ids := make([]int, 0, len(m.hb.objs))
 	for id := range m.hb.objs {
@@ -624,6 +642,7 @@ func (m *merger) heaps() (*Heap, bool) {
 		if _, renamed := m.rho[id]; renamed {
 			continue
 		}
+		out.own()
 		out.objs[id] = &Obj{V: m.renameVal(m.hb.objs[id].V), owner: out.owner}
 	}
 	// objects modified only on the a side relative to the frozen layer, while b still has the frozen value
@@ -666,4 +685,8 @@ func sameValue(a, b Value) bool {
 		return ok && x == y
 	}
 	return false
+}
+
+func sameMap(a, b map[int]*Obj) bool {
+	return reflect.ValueOf(a).Pointer() == reflect.ValueOf(b).Pointer()
 }
